@@ -636,7 +636,10 @@ func (h *httpServerHandler) handleGet(ctx context.Context, w http.ResponseWriter
 
 	// Clean up connection
 	h.getSSEConnectionsLock.Lock()
-	delete(h.getSSEConnections, session.GetID())
+	// Remove only this handler's own registration: a newer stream may have replaced it.
+	if h.getSSEConnections[session.GetID()] == conn {
+		delete(h.getSSEConnections, session.GetID())
+	}
 	h.getSSEConnectionsLock.Unlock()
 	verifhook.Yield("get:deleted")
 	h.logger.Infof("GET SSE connection closed, session ID: %s", session.GetID())
